@@ -22,6 +22,8 @@ type mTrans struct {
 	local      ServerAddress
 	sentVotes  []ServerID
 	sentPre    []ServerID
+	timeoutNowTo    []ServerID
+	timeoutNowFails bool
 }
 
 func (t *mTrans) Consumer() <-chan RPC     { return t.consumer }
@@ -59,6 +61,10 @@ func (t *mTrans) EncodePeer(id ServerID, addr ServerAddress) []byte { return []b
 func (t *mTrans) DecodePeer(b []byte) ServerAddress                { return ServerAddress(b) }
 func (t *mTrans) SetHeartbeatHandler(cb func(rpc RPC))             {}
 func (t *mTrans) TimeoutNow(id ServerID, target ServerAddress, args *TimeoutNowRequest, resp *TimeoutNowResponse) error {
+	t.timeoutNowTo = append(t.timeoutNowTo, id)
+	if t.timeoutNowFails {
+		return errInjected
+	}
 	return nil
 }
 
